@@ -96,7 +96,7 @@ def run(ctx):
         hist[k] = hist.get(k, 0) + v
     # API level: create / look up under case variants and path spellings / list / remove
     api_ops = api_h = 0
-    for tag, args in [("names-api", ["--seed", ctx.seed, "--count", 300 if quick else 5000, "--max-ops", 40, "--invalid-names", "--no-meta", "--reopen-pct", 3]),
+    for tag, args in [("names-api", ["--seed", ctx.seed, "--count", 900 if quick else 5000, "--max-ops", 40, "--invalid-names", "--no-meta", "--reopen-pct", 3]),
                       ("perm5", ["--perms", 5, "--seed", ctx.seed, "--sample", 2 if quick else 20])]:
         stat, h2, sample = A.campaign(ctx, args, tag, "CfbVerif.Props.C01/C10 (model Dir no longer corresponds to lib.rs/directory.rs)")
         api_ops += stat.get("ops", 0)
